@@ -8,9 +8,14 @@ from lib.mir import AnalysisError, fmt_origin
 RULES = {}          # id -> (fn, floor, doc)
 
 
-def rule(rid, floor=1, shared_doc=None):
+NO_SIGNATURE_GUARD = set()   # rules that read no argument of a pinned function by position
+
+
+def rule(rid, floor=1, shared_doc=None, positional=True):
     def deco(fn):
         RULES[rid] = (fn, floor, (fn.__doc__ or "").strip())
+        if not positional:
+            NO_SIGNATURE_GUARD.add(rid)
         return fn
     return deco
 
@@ -116,7 +121,7 @@ def run_rules(P, rule_ids, env=None):
         # its calls (and its parameters) by position, so what they conclude about it, or about
         # a function calling it, is not a reading of the code: not judged.
         changed = changed_signatures(P)
-        if changed and ctx.violations:
+        if changed and ctx.violations and rid not in NO_SIGNATURE_GUARD:
             kept = []
             for v in ctx.violations:
                 fid = v.key[0] if isinstance(v.key, (tuple, list)) and v.key else None
@@ -136,7 +141,7 @@ def run_rules(P, rule_ids, env=None):
             ctx.violations = kept
         if err is None and getattr(ctx, "open_obligations", None):
             k, m, site = ctx.open_obligations[0]
-            err = "%s: %d open panic obligation(s), e.g. %s at %s: %s" % (rid, len(ctx.open_obligations), k, site, m)
+            err = "%s: %d open obligation(s), e.g. %s at %s: %s" % (rid, len(ctx.open_obligations), k, site, m)
         # `floor` documents the instance count confirmed by hand on the pinned tree; what is
         # enforced is non-vacuity: a rule that judged nothing cannot pass.  (A changed count is
         # not an alarm by itself: removing a guarded site is not a violation of its guard.)
